@@ -47,8 +47,8 @@ class Mutex {
             if (hold_token_.equal(sch_.getToken())) //! 如果就是自己占用的，就直接返回
                 return true;
 
-            wait_tokens_.push(sch_.getToken());
             do {
+                wait_tokens_.push(sch_.getToken()); //! 每次等待前都要登记，否则被唤醒后再次等待就无人唤醒了
                 sch_.wait();
                 if (sch_.isCanceled())
                     return false;
